@@ -10,6 +10,7 @@ from __future__ import annotations
 
 import ast
 
+from pv.q import text as qtext
 from pv.model import AnalysisError, walk_no_nested, params, UNKNOWN, peel
 from pv.norm import Normalizer, Poly, single_defs
 
@@ -258,7 +259,7 @@ def rule_cd(model, rep):
                       witness="non-UTF-8 password: the os_crypt backend returns something else than the builtin digest")
         # a validating `if ...: raise CryptBackendError`
         guards = [n for n in walk_no_nested(fn) if isinstance(n, ast.If) and any(
-            isinstance(x, ast.Raise) and "CryptBackendError" in ast.unparse(x) for x in n.body)]
+            isinstance(x, ast.Raise) and qtext(x).loose("CryptBackendError") for x in n.body)]
         if len(guards) != 1:
             rep.violation(RC, s, f"{len(guards)} validating guards", "crypt()'s answer must be prefix/length-checked before use",
                           witness="a crypt() that answers with a different scheme's hash is accepted as this scheme's digest")
@@ -335,7 +336,7 @@ def rule_cd(model, rep):
         owner, fn = model.method(cref, "_calc_checksum")
         s = site(cref[0], mix + "._calc_checksum")
         cs = model.class_const(cref, "checksum_size")
-        txt = ast.unparse(fn)
+        txt = qtext(fn)
         lens = [n for n in ast.walk(fn) if isinstance(n, ast.Compare) and ast.unparse(n.left) == "len(hash)"]
         sl = [n for n in ast.walk(fn) if isinstance(n, ast.Subscript) and ast.unparse(n.value) == "hash"
               and isinstance(n.slice, ast.Slice)]
@@ -345,7 +346,7 @@ def rule_cd(model, rep):
         ok = len(sl) == 1 and ast.unparse(sl[0].slice) == f"-{cs}:"
         rep.check(ok, RD, s, ast.unparse(sl[0]) if sl else "<none>", f"digest = last {cs} characters",
                   witness="bcrypt digest cut at the wrong offset")
-        ok = "hash.startswith(config)" in txt
+        ok = txt.loose("hash.startswith(config)")
         rep.check(ok, RD, s, "hash.startswith(config)", "answer must echo the config string")
 
 
@@ -467,7 +468,7 @@ def rule_f(model, rep):
             body_txt = " ".join(ast.unparse(x) for x in n.body)
             if f"{sec}.decode('utf-8')" in body_txt:
                 for h in n.handlers:
-                    if h.type is not None and "UnicodeDecodeError" in ast.unparse(h.type):
+                    if h.type is not None and "UnicodeDecodeError" in qtext(h.type):
                         ok = any(isinstance(x, ast.Return) and (x.value is None or (isinstance(x.value, ast.Constant) and x.value.value is None))
                                  for x in h.body)
     rep.check(ok, R, s, "except UnicodeDecodeError: return None", "non-UTF-8 bytes passwords make safe_crypt return None (so callers fall back)",
@@ -476,7 +477,7 @@ def rule_f(model, rep):
     ok = False
     for n in ast.walk(fn):
         if isinstance(n, ast.If) and ast.unparse(n.test) in (f"_NULL in {sec}", f"'\\x00' in {sec}"):
-            ok = any(isinstance(x, ast.Raise) and "ValueError" in ast.unparse(x) for x in n.body)
+            ok = any(isinstance(x, ast.Raise) and qtext(x).loose("ValueError") for x in n.body)
     rep.check(ok, R, s, f"if _NULL in {sec}: raise ValueError", "NUL in the password is refused before crypt()",
               witness="crypt() silently truncates the password at the first NUL")
     # 3. _crypt call under the lock
@@ -491,7 +492,7 @@ def rule_f(model, rep):
     # 4. _crypt receives (secret, hash) in that order
     rep.check([ast.unparse(a) for a in call.args] == params(fn)[:2], R, s, ast.unparse(call), "_crypt(secret, hash) argument order")
     # 5. invalid prefixes / empty -> None
-    ok = any(isinstance(n, ast.If) and "not result" in ast.unparse(n.test) and "_invalid_prefixes" in ast.unparse(n.test)
+    ok = any(isinstance(n, ast.If) and qtext(n.test).loose("not result") and qtext(n.test).loose("_invalid_prefixes")
              for n in ast.walk(fn))
     rep.check(ok, R, s, "if not result or result[0] in _invalid_prefixes: return None", "error markers from crypt() are mapped to None")
     # test_crypt compares the whole answer
@@ -553,7 +554,7 @@ def rule_g(model, rep):
                               witness="backend function replaced outside set_backend()")
     # loaders are only invoked from _set_backend
     sb = model.func(UH, "BackendMixin._set_backend")
-    rep.check("loader(**kwds)" in ast.unparse(sb), R, site(UH, "BackendMixin._set_backend"), "ok = loader(**kwds)", "loader invoked by _set_backend")
+    rep.check("loader(**kwds)" in qtext(sb), R, site(UH, "BackendMixin._set_backend"), "ok = loader(**kwds)", "loader invoked by _set_backend")
     # set_backend: the with-block contains the _set_backend call and the __backend store guarded by `not dryrun`
     fn = model.func(UH, "BackendMixin.set_backend")
     withs = [n for n in ast.walk(fn) if isinstance(n, ast.With) and any(ast.unparse(i.context_expr) == "_backend_lock" for i in n.items)]
@@ -561,16 +562,16 @@ def rule_g(model, rep):
         rep.undecided(R, site(UH, "BackendMixin.set_backend"), "with _backend_lock block not found")
     else:
         w = withs[0]
-        txt = ast.unparse(w)
+        txt = qtext(w)
         rep.check("cls._set_backend(name, dryrun)" in txt, R, site(UH, "BackendMixin.set_backend"), "cls._set_backend(name, dryrun)",
                   "loader runs inside the lock")
-        ok = any(isinstance(n, ast.If) and ast.unparse(n.test) == "not dryrun" and "cls.__backend = name" in ast.unparse(n)
+        ok = any(isinstance(n, ast.If) and ast.unparse(n.test) == "not dryrun" and "cls.__backend = name" in qtext(n)
                  for n in ast.walk(w))
         rep.check(ok, R, site(UH, "BackendMixin.set_backend"), "if not dryrun: cls.__backend = name",
                   "a dry run (has_backend) never switches the active backend",
                   witness="has_backend('builtin') silently switches every later hash to that backend")
         # restore pending state in finally
-        ok = any(isinstance(n, ast.Try) and n.finalbody and "cls._pending_backend, cls._pending_dry_run = orig" in ast.unparse(n.finalbody[0])
+        ok = any(isinstance(n, ast.Try) and n.finalbody and "cls._pending_backend, cls._pending_dry_run = orig" in qtext(n.finalbody[0])
                  for n in ast.walk(w))
         rep.check(ok, R, site(UH, "BackendMixin.set_backend"), "finally: cls._pending_backend, cls._pending_dry_run = orig",
                   "pending-state is restored on every exit")
@@ -582,12 +583,12 @@ def rule_g(model, rep):
     # dry-run guard in _set_calc_checksum_backend
     f2 = model.func(UH, "HasManyBackends._set_calc_checksum_backend")
     ok = any(isinstance(n, ast.If) and ast.unparse(n.test) == "not cls._pending_dry_run" and
-             "cls._calc_checksum_backend = func" in ast.unparse(n) for n in ast.walk(f2))
+             "cls._calc_checksum_backend = func" in qtext(n) for n in ast.walk(f2))
     rep.check(ok, R, site(UH, "HasManyBackends._set_calc_checksum_backend"), "if not cls._pending_dry_run: cls._calc_checksum_backend = func",
               "dry run installs nothing", witness="has_backend() switches the implementation")
     # update_mixin_classes honours dryrun
     um = model.func("passlib.utils", "update_mixin_classes")
-    txt = ast.unparse(um)
+    txt = qtext(um)
     ok = "if dryrun" in txt or "not dryrun" in txt
     rep.check(ok, R, site("passlib.utils", "update_mixin_classes"), "dryrun guard", "mixin swap honours dryrun")
     rep.minimum(R, 8)
@@ -627,6 +628,79 @@ def rule_g(model, rep):
         rep.undecided(RF, "<instance-count>", f"only {nf} dryrun-forwarding call sites found, expected at least 3")
 
 
+# ----------------------------------------------------------------------------- C03.l
+def rule_l(model, rep):
+    """A no-backend stub loads a backend and then re-dispatches the *same* call.  If it re-dispatches through the
+    instance (self.m(...)) the call re-enters every wrapping override of m in a subclass, which then transforms its
+    argument a second time."""
+    R = "C03.l-stub-redispatch"
+    n = 0
+    for un, unit in model.units.items():
+        if not un.startswith("passlib."):
+            continue
+        for cn, cnode in unit.classes.items():
+            stubs = []
+            for st in cnode.body:
+                if isinstance(st, ast.FunctionDef):
+                    body = [x for x in st.body if not (isinstance(x, ast.Expr) and isinstance(x.value, ast.Constant))]
+                    if body and isinstance(body[0], ast.Expr) and ast.unparse(body[0].value) in ("self._stub_requires_backend()", "cls._stub_requires_backend()"):
+                        stubs.append((st, body))
+            if not stubs or un == UH:
+                continue
+            stubbed = {st.name for st, _ in stubs}
+            # handler classes that list this mixin as a base
+            hosts = [(u2, c2) for u2, unit2 in model.units.items() for c2 in unit2.classes if (un, cn) in model.bases((u2, c2))]
+            for st, body in stubs:
+                s = site(un, f"{cn}.{st.name}")
+                ret = body[-1] if isinstance(body[-1], ast.Return) and isinstance(body[-1].value, ast.Call) else None
+                if ret is None or len(body) != 2:
+                    rep.undecided(R, s, "stub is not `require backend; return <re-dispatch>`")
+                    continue
+                call = ret.value
+                f = call.func
+                args = [ast.unparse(a) for a in call.args]
+                own = [p_ for p_ in params(st) if p_ not in ("self", "cls")]
+                n += 1
+                if not (isinstance(f, ast.Attribute) and f.attr == st.name and args == own):
+                    rep.violation(R, s, ast.unparse(ret), "the stub must repeat the call it intercepted (same method, same arguments)",
+                                  witness="the first call after start-up computes something else than every later call")
+                    continue
+                recv = ast.unparse(f.value)
+                if st.name == "_calc_checksum" and {"hash", "verify", "genhash"} <= stubbed:
+                    rep.hold(R, s, f"{recv}: digest stub is shadowed by the hash/verify/genhash stubs of the same mixin (never the first call)")
+                    continue
+                if recv in ("self", "cls"):
+                    wrappers = []
+                    for hu, hc in hosts:
+                        for sub in [(hu, hc)] + model.subclasses((hu, hc)):
+                            su = model.units.get(sub[0])
+                            if su is None or sub[1] not in su.classes:
+                                continue
+                            for m in su.classes[sub[1]].body:
+                                if isinstance(m, ast.FunctionDef) and m.name == st.name:
+                                    mown = [p_ for p_ in params(m) if p_ not in ("self", "cls")]
+                                    for c in walk_no_nested(m):
+                                        if isinstance(c, ast.Call) and ast.unparse(c.func) == f"super().{st.name}" and [ast.unparse(a) for a in c.args] != mown:
+                                            wrappers.append((sub, ast.unparse(c)))
+                    if wrappers:
+                        sub, txt = wrappers[0]
+                        rep.violation(R, s, f"{ast.unparse(ret)}  # re-enters {sub[1]}.{st.name}, which wraps it as `{txt}`",
+                                      f"the stub re-dispatches through the instance, so the wrapping override in {sub[1]} runs a second time on its own output",
+                                      witness=f"in a fresh process the first {sub[1]}.hash(pw) is computed from the transformed password transformed again: it does not verify, "
+                                              f"and differs from every later hash of the same password and salt")
+                    else:
+                        rep.hold(R, s, f"{ast.unparse(ret)}: no subclass wraps {st.name}")
+                elif recv.startswith("super("):
+                    inner = f.value.args
+                    ok = len(inner) == 2 and any(ast.unparse(inner[0]) == hc for _, hc in hosts) and ast.unparse(inner[1]) in ("self", "cls")
+                    rep.check(ok, R, s, ast.unparse(ret), "the stub continues the lookup after the handler class (the mixin itself is swapped out of the bases once a backend is loaded)",
+                              witness="super() anchored at the stub mixin raises TypeError after set_backend() removed the mixin from the MRO")
+                else:
+                    rep.undecided(R, s, f"re-dispatch receiver `{recv}` not recognised")
+    if n < 4:
+        rep.undecided(R, "<instance-count>", f"only {n} backend stubs found, expected at least 4")
+
+
 # ----------------------------------------------------------------------------- C03.h / C03.i
 def rule_hi(model, rep):
     RH, RI = "C03.h-bcrypt-mixins", "C03.i-exhaustive-dispatch"
@@ -641,8 +715,8 @@ def rule_hi(model, rep):
     # _NoBackend stub
     owner, fn = model.method((B, "_NoBackend"), "_calc_checksum")
     txt = [ast.unparse(st) for st in fn.body if not (isinstance(st, ast.Expr) and isinstance(st.value, ast.Constant))]
-    rep.check(txt == ["self._stub_requires_backend()", "return self._calc_checksum(secret)"], RH, site(B, "_NoBackend._calc_checksum"),
-              "; ".join(txt), "stub loads a backend, then re-dispatches")
+    rep.check(len(txt) == 2 and txt[0] == "self._stub_requires_backend()" and txt[1].startswith("return ") and txt[1].endswith("._calc_checksum(secret)"), RH, site(B, "_NoBackend._calc_checksum"),
+              "; ".join(txt), "stub loads a backend, then re-dispatches the digest call (the receiver is decided by C03.l)")
     # builtin call arguments
     owner, fn = model.method((B, "_BuiltinBackend"), "_calc_checksum")
     calls = [n for n in ast.walk(fn) if isinstance(n, ast.Call) and ast.unparse(n.func) == "_builtin_bcrypt"]
@@ -778,6 +852,7 @@ def run(model, rep):
     rule_f(model, rep)
     rule_g(model, rep)
     rule_hi(model, rep)
+    rule_l(model, rep)
     # the builtin sha1-crypt / pbkdf2 backends agree with crypt(3) only if the HMAC they are built on is RFC 2104's
     from . import prim
     prim.rule_hmac(model, rep, "C03.j-builtin-hmac")
